@@ -1,6 +1,8 @@
 import Gql.Proofs.SchemaBuild6
 import Gql.Proofs.SchemaDiff3
 import Gql.Proofs.SchemaText6
+import Gql.Proofs.SchemaText7
+import Gql.Proofs.SchemaText8
 /-!
 # C17 — A schema survives printing to SDL and rebuilding
 
@@ -14,7 +16,8 @@ layer is the section "SDL text" at the end: `Gql.Types.PrintSchema.printSchemaTe
 print_schema.py down to the code points (tied to the code by the `text` stream of `checks/c17.py`:
 model text = `print_schema(s)` for every generated schema), and `text_lexes` / `text_roundtrip` /
 `text_build_roundtrip` prove, with C08's lexer and parser models, that this text parses to the
-definitions and builds to the same schema (lemmas: `Gql/Proofs/SchemaText1-5.lean`).
+definitions and builds to the same schema (lemmas: `Gql/Proofs/SchemaText1-8.lean`; the decidable domain `textWFb`:
+`Gql/Types/PrintSchemaTextWF.lean`).
 -/
 namespace Gql.Props.C17
 open Gql Gql.Types
@@ -242,6 +245,105 @@ example : TextWF false true exampleText := by
     Exec.namesWf, Exec.isLocation, Exec.isOpType, Exec.dirsWfC, Exec.dirWfC, Exec.argsWfC,
     Val.wfFields, Val.wfList, Val.wf, Exec.varDefWf, Exec.descWf, Ty.wf, TyP.shaped]
 
+
+/-! ### The decidable domain `textWFb`
+
+`TextWF` is C08's (undecidable-looking: number texts and block strings are given by existentials)
+well-formedness of the translated definitions.  `textWFb` (`Gql/Types/PrintSchemaTextWF.lean`) is a
+`Bool` function of the schema content alone; the driver evaluates it (`textwf <schema>`) and
+`checks/c17.py` asserts that it is `true` on every generated / corpus schema that
+`validate_schema` accepts, so the hypothesis of the theorems below is observed on every explored
+valid schema. -/
+
+/-- **C17-10 (the decidable predicate is sufficient).**  `textWFb fa dd s = true` — names are
+lexically Names; descriptions, deprecation reasons, specifiedBy URLs and string defaults are
+sequences of Unicode scalar values; a description printed in block form is block-representable;
+default values are proper const literals (number texts accepted by the specification's number
+grammar, enum literals other than `true`/`false`/`null`); type references have no `T!!`; enum
+values are not `true`/`false`/`null`; directive locations are non-empty and from the parser's
+table; a deprecated directive definition only with `dd` — implies `TextWF fa dd s`. -/
+theorem textWF_of_textWFb (fa dd : Bool) (s : Schema) (h : textWFb fa dd s = true) : TextWF fa dd s :=
+  Gql.Types.PrintSchema.textWF_of_textWFb h
+
+/-- The number clause of `textWFb` is exact: `numOk fl s` (the specification's number grammar of
+`Gql/Spec/Lex.lean` consumes the whole text as an IntValue, `fl = false`, or a FloatValue,
+`fl = true`) holds iff the text is a number text in C08's sense (`IsNum`: sign, integer part,
+optional fraction, optional exponent).  So this clause excludes no default value the parser could
+have produced. -/
+theorem numOk_iff_isNum (fl : Bool) (s : List Nat) : numOk fl s = true ↔ IsNum fl s :=
+  Gql.Types.PrintSchema.numOk_iff_isNum fl s
+
+example : IsNum true (S "-1.50e+3") := (numOk_iff_isNum _ _).mp (by decide)
+example : ¬ IsNum false (S "01") := fun h => absurd ((numOk_iff_isNum _ _).mpr h) (by decide)
+
+/-- C17-6 with the decidable hypothesis. -/
+theorem text_lexes_b (w : Widths) (hw : 4 ≤ w.object) (fa dd : Bool) (s : Schema)
+    (h : textWFb fa dd s = true) :
+    Lexes true (printSchemaText w s) (Exec.gdefsKvs true (defsToGDefs (schemaToDefs s))) :=
+  text_lexes w hw fa dd s (textWF_of_textWFb fa dd s h)
+
+/-- C17-7 with the decidable hypotheses `WFSchema s = true` and `textWFb … s = true`. -/
+theorem text_roundtrip_b (w : Widths) (hw : 4 ≤ w.object) (cfg : Cfg) (hm : cfg.maxTokens = none)
+    (s : Schema) (hs : WFSchema s = true) (h : textWFb cfg.fragArgs cfg.dirOnDir s = true) :
+    parseSource .document cfg (printSchemaText w s) =
+      .ok (Exec.gdocAst cfg.fragArgs cfg.dirOnDir (defsToGDefs (schemaToDefs s))) :=
+  text_roundtrip w hw cfg hm s hs (textWF_of_textWFb _ _ s h)
+
+/-- C17-8 with the decidable hypotheses. -/
+theorem text_build_roundtrip_b (w : Widths) (hw : 4 ≤ w.object) (cfg : Cfg) (hm : cfg.maxTokens = none)
+    (s : Schema) (hs : WFSchema s = true) (h : textWFb cfg.fragArgs cfg.dirOnDir s = true) :
+    ∃ defs : List Gql.Types.Def,
+      parseSource .document cfg (printSchemaText w s) =
+        .ok (Exec.gdocAst cfg.fragArgs cfg.dirOnDir (defsToGDefs defs)) ∧
+      buildFromDefs defs = .ok s :=
+  text_build_roundtrip w hw cfg hm s hs (textWF_of_textWFb _ _ s h)
+
+/-- `textWFb` contains the shape hypothesis of C17-9: default values are `… vnil`-terminated chains. -/
+theorem schemaShaped_of_textWFb (fa dd : Bool) (s : Schema) (h : textWFb fa dd s = true) :
+    schemaShaped s = true :=
+  Gql.Types.PrintSchema.schemaShaped_of_textWFb h
+
+/-- C17-9 with the decidable hypotheses only (`WFSchema`, `textWFb`: two `Bool` computations on the
+schema; the shape hypothesis `schemaShaped` follows from `textWFb`): the printed text parses to a
+document that reads back as exactly the definitions `schemaToDefs s`, and building what was read
+gives back exactly the schema. -/
+theorem text_roundtrip_defs_b (w : Widths) (hw : 4 ≤ w.object) (cfg : Cfg) (hm : cfg.maxTokens = none)
+    (s : Schema) (hs : WFSchema s = true) (h : textWFb cfg.fragArgs cfg.dirOnDir s = true) :
+    ∃ gdefs : List GDef,
+      parseSource .document cfg (printSchemaText w s) = .ok (Exec.gdocAst cfg.fragArgs cfg.dirOnDir gdefs) ∧
+      gdefsToDefs gdefs = schemaToDefs s ∧
+      buildFromDefs (gdefsToDefs gdefs) = .ok s :=
+  text_roundtrip_defs w hw cfg hm s hs (textWF_of_textWFb _ _ s h) (schemaShaped_of_textWFb _ _ s h)
+
+-- Non-vacuity: the example schema satisfies the decidable predicate (with `dd`: its directive is
+-- deprecated), and does not without `dd`.
+example : textWFb false true exampleText = true := by decide
+example : textWFb false false exampleText = false := by decide
+example : TextWF false true exampleText := textWF_of_textWFb _ _ _ (by decide)
+-- number, block-string and nested list / object defaults inside a schema
+example : textWFb false false
+    { exampleText with
+      directives := []
+      types := exampleText.types ++ [
+        .input [74] none false [
+          { name := [105], desc := none, type := .nonNull (.list (.nonNull (.named (S "Int")))),
+            default := some (.list (.lcons (.int (S "-12")) (.lcons (.int (S "0")) .vnil))), depr := none },
+          { name := [102], desc := some (S "  indented\nblock"), type := .named (S "Float"),
+            default := some (.float (S "6.02e+23")), depr := some (S "x\"y") },
+          { name := [111], desc := none, type := .named [74],
+            default := some (.obj (.fcons [102] (.float (S "1E9")) (.fcons [115] (.str (S "a\nb") true) .vnil))),
+            depr := none }] ] } = true := by decide
+-- the number recogniser: the grammar of IntValue / FloatValue, whole text
+example : numOk false (S "-120") = true ∧ numOk true (S "-1.50e+3") = true ∧ numOk true (S "0E0") = true ∧
+    numOk false (S "01") = false ∧ numOk false (S "1.0") = false ∧ numOk true (S "1.") = false ∧
+    numOk true (S "1") = false ∧ numOk false (S "-") = false ∧ numOk false [] = false ∧
+    numOk true (S "1e") = false ∧ numOk false (S "1a") = false := by decide
+-- what the predicate rejects: a lone surrogate in a description, an enum value `true`, `T!!`,
+-- an ill-formed number text, an unknown location
+example : descOk (some [0xD800]) = false ∧ enumValOk ⟨S "true", none, none⟩ = false ∧
+    typeOk (.nonNull (.nonNull (.named [84]))) = false ∧ valueOk (.int (S "007")) = false ∧
+    valueOk (.list (.lcons (.int (S "7")) .vnil)) = true ∧ valueOk (.list (.int (S "7"))) = false ∧
+    valueOk (.lcons (.int (S "7")) .vnil) = false ∧ locationOk (S "NOWHERE") = false := by decide
 
 -- the model's text for one of its definitions (a described first item, a deprecated value)
 example : printTypeDef Widths.generated
